@@ -286,19 +286,17 @@ def run(check: Check):
             TREEDEF = d.name
     leaves_ok = LEAVES is not None
     split_ok = False
-    keys_name = None
-    for ds in ff.rd.defs_at.values():
-      for d in ds:
-        v = d.value
-        if isinstance(v, ast.Call) and ff.ext(v.func) == 'jax.random.split' and len(v.args) == 2 and ff.param_of(v.args[0]) == p_rng:
-          keys_name = d.name
-          split_ok = isinstance(v.args[1], ast.Call) and ff.ext(v.args[1].func) == 'builtins.len' and txt(v.args[1].args[0]) == LEAVES
+    split_call = None
+    for _, v in ff.calls():
+      if ff.ext(v.func) == 'jax.random.split' and len(v.args) == 2 and ff.param_of(v.args[0]) == p_rng:
+        split_call = v
+        split_ok = isinstance(v.args[1], ast.Call) and ff.ext(v.args[1].func) == 'builtins.len' and txt(v.args[1].args[0]) == LEAVES
     zip_ok = False
     call_ok = False
     for n in ff.cfg.nodes:
       if n.kind == 'for' and isinstance(n.ast.iter, ast.Call) and ff.ext(n.ast.iter.func) == 'builtins.zip':
-        za = [txt(a) for a in n.ast.iter.args]
-        zip_ok = za[:2] == [LEAVES, keys_name] and len(za) == n_iter
+        za = n.ast.iter.args
+        zip_ok = (len(za) == n_iter and txt(za[0]) == LEAVES and split_call is not None and any(v is split_call for v in ff.expand(za[1])))
         tg = [t.id for t in n.ast.target.elts]
         target_fn = f'{MOD}:' + q.replace('_pytree', '')
         for c in ast.walk(n.ast):
